@@ -8,7 +8,7 @@ from sa.effects import class_accesses
 from sa.selftest import Mutant, Silent
 from sa.source import AnalysisError
 from sa.props._lib_c import norm_class
-from sa.props._lib_i import sect, COMPAT, BlockRaised, FollowModule, Model, NotPure, Raised, structural, bind_methods, eval_block, interp, module_env, peval
+from sa.props._lib_i import sect, COMPAT, Abstain, BlockRaised, FollowModule, Model, NotPure, Raised, structural, bind_methods, eval_block, interp, module_env, peval
 
 PROPERTY = "C45"
 RULE_KINDS = {
@@ -16,7 +16,7 @@ RULE_KINDS = {
     "resolver/": "structural", "instantiate/": "structural", "getattr/": "structural", "type-policy/": "structural", "unjelly/": "structural",
     "taster/": "structural", "registry/": "structural", "state/": "structural", "placeholders/": "structural", "policy/defaults-empty": "structural",
     # second layer: whole methods interpreted under modelled policies on crafted s-expressions
-    "policy-eval/": "bounded", "references/": "bounded", "policy/": "bounded",
+    "policy-eval/": "bounded", "references/": "bounded", "references/state-dict-identity": "structural", "policy/": "bounded",
 }
 JELLY = "spread/jelly.py"
 TECHNIQUE = "CFG dominance + provenance on normalised _Unjellier; bounded policy scenarios second"
@@ -691,6 +691,30 @@ def check(ctx):
                               "objects, so a container referring back to an object under construction is frozen with the placeholder inside (cycle lost)")
         ctx.floor("placeholders/root-class-test", sites, 4)
 
+    # ---- late resolution of cyclic references: a default state setter adopts the very state dict it is given
+    with structural(ctx, "references/state-dict-identity", "(no evaluated rule covers this clause)"):
+        setters = []
+        uc = mod.find("Unjellyable")
+        if isinstance(uc, ast.ClassDef):
+            setters += [("Unjellyable." + m.name, m, m.args.args[-1].arg) for m in uc.body if isinstance(m, ast.FunctionDef) and m.name == "setStateFor"]
+        ni = mod.find("_newInstance")
+        if isinstance(ni, ast.FunctionDef):
+            setters += [("_newInstance." + m.name, m, m.args.args[-1].arg) for m in ast.walk(ni) if isinstance(m, ast.FunctionDef) and m is not ni and m.args.args]
+        if not setters:
+            raise Abstain("no default state setter (Unjellyable.setStateFor / the setter inside _newInstance) found")
+        for sq, m, sp in setters:
+            touches = [n for n in ast.walk(m) if isinstance(n, ast.Attribute) and n.attr == "__dict__"]
+            if not touches:
+                continue
+            adopts = [st for st in ast.walk(m) if isinstance(st, ast.Assign) and any(isinstance(t, ast.Attribute) and t.attr == "__dict__" for t in st.targets)
+                      and (src(st.value) == sp or (isinstance(st.value, ast.BoolOp) and isinstance(st.value.op, ast.Or) and src(st.value.values[0]) == sp))]
+            copies = [c for c in ast.walk(m) if isinstance(c, ast.Call) and ((isinstance(c.func, ast.Attribute) and c.func.attr in ("update", "copy") and "__dict__" in src(c.func.value))
+                                                                            or (call_name(c) in ("dict", "copy.copy", "copy.deepcopy") and any(src(a) == sp for a in c.args)))]
+            ctx.check(bool(adopts) and not copies, "references/state-dict-identity", base + sq,
+                      f"the default state setter does not make the unjellied state dict itself the instance's __dict__ ({'it copies its items' if copies else 'no `__dict__ = ' + sp + '` assignment'}): "
+                      "placeholders of cyclic references remember (that dict, key) and patch it once the target exists, so attributes pointing back to an object still under construction "
+                      "stay crefutil placeholders forever")
+
     # ---- reference table discipline (shared and cyclic references)
     with sect(ctx, 'reference table discipline'):
         _check_references(ctx, menv)
@@ -825,6 +849,9 @@ MUTANTS = [
            "            clz = self._lookup(jelTypeText)\n",
            more=[(JELLY, "    def _genericUnjelly(self, cls, state):\n", "    def _lookup(self, dotted):\n        found = namedObject(dotted)\n        if not self.taster.isModuleAllowed(dotted.rpartition(\".\")[0]):\n            raise InsecureJelly(\"Module not allowed.\")\n        return found\n\n    def _genericUnjelly(self, cls, state):\n")],
            expect_rule="policy-eval/never-resolves-outside-policy"),
+    Mutant("state-dict-copied-into-instance", JELLY, "    def setStateFor(self, unjellier, state):\n        self.__dict__ = state\n", "    def setStateFor(self, unjellier, state):\n        self.__dict__.update(state)\n",
+           expect_rule="references/state-dict-identity"),
+    Mutant("new-instance-state-dict-copied", JELLY, "            instance.__dict__ = state or {}\n", "            instance.__dict__ = dict(state or {})\n", expect_rule="references/state-dict-identity"),
     Mutant("module-policy-prefix-match", JELLY, "        return moduleName in self.allowedModules\n", "        return any(moduleName.startswith(m) for m in self.allowedModules)\n",
            expect_rule="policy/module-exact-membership"),
     Mutant("type-policy-allows-code-atoms-by-default", JELLY, '            b"frozenset": 1,\n        }\n', '            b"frozenset": 1,\n            b"function": 1,\n        }\n', expect_rule="policy/defaults-empty"),
@@ -857,6 +884,7 @@ SILENT = [
            "        if im_name not in im_class.__dict__:\n            raise TypeError(\"instance method changed\")\n        if True:\n            if im_self is None:\n                im = getattr(im_class, im_name)\n"),
     Silent("policy-defaults-from-module-constants", JELLY, "        self.allowedModules = {}\n        self.allowedClasses = {}\n", "        self.allowedModules = dict.fromkeys(_NOTHING_YET, 1)\n        self.allowedClasses = {}\n",
            more=[(JELLY, "class SecurityOptions:\n", "_NOTHING_YET = ()\n\n\nclass SecurityOptions:\n")]),
+    Silent("state-setter-renamed-parameter", JELLY, "    def setStateFor(self, unjellier, state):\n        self.__dict__ = state\n", "    def setStateFor(self, unjellier, jellyState):\n        self.__dict__ = jellyState\n"),
     Silent("class-check-combined", JELLY, '            clz = namedObject(jelTypeText)\n            if not self.taster.isClassAllowed(clz):\n                raise InsecureJelly("Class %s not allowed." % jelTypeText)\n            return self._genericUnjelly(clz, obj[1])\n',
            '            clz = namedObject(jelTypeText)\n            if self.taster.isClassAllowed(clz):\n                return self._genericUnjelly(clz, obj[1])\n            raise InsecureJelly("Class %s not allowed." % jelTypeText)\n'),
 ]
